@@ -222,9 +222,19 @@ class Interp:
             return self.eval(node.body, env)
         if isinstance(node, ast.AsyncFunctionDef):
             raise Unsupported(f'async function {node.name} is not interpreted')
-        for n in ast.walk(node):
-            if isinstance(n, (ast.Yield, ast.YieldFrom)):
+        is_gen = any(isinstance(n, (ast.Yield, ast.YieldFrom)) for n in _own_nodes(node))
+        if is_gen:
+            if not getattr(self, 'allow_generators', False):
                 raise Unsupported(f'generator function {node.name} is not interpreted')
+            # eager evaluation of a pure producer: yielded values are collected, the return value is kept
+            # (valid for the small emission helpers of asm.py, which never receive sent values)
+            out = EagerGen()
+            env.vars['__yield_sink__'] = out
+            try:
+                self.exec_block(node.body, env)
+            except _Return as r:
+                out.value = r.value
+            return out
         try:
             self.exec_block(node.body, env)
         except _Return as r:
@@ -684,6 +694,19 @@ class Interp:
             return IFunc(self, node, env.globals, env.defcls, dict(env.vars) if env.vars is not env.globals else None)
         if t in (ast.ListComp, ast.SetComp, ast.GeneratorExp, ast.DictComp):
             return self._comp(node, env)
+        if t is ast.Yield or t is ast.YieldFrom:
+            sink = env.vars.get('__yield_sink__')
+            if sink is None:
+                raise Unsupported('yield outside an eagerly evaluated generator')
+            if t is ast.Yield:
+                sink.items.append(self.eval(node.value, env) if node.value is not None else None)
+                return None
+            inner = self.eval(node.value, env)
+            if isinstance(inner, EagerGen):
+                sink.items.extend(inner.items)
+                return inner.value
+            sink.items.extend(list(inner))
+            return None
         if t is ast.Starred:
             raise Unsupported('starred expression outside call')
         if t is ast.Await:
@@ -742,6 +765,28 @@ class Interp:
         if f in (getattr(builtins, n) for n in ('open', 'exec', 'eval', 'compile', '__import__', 'input')):
             raise Unsupported('forbidden builtin')
         return f(*args, **kwargs)
+
+
+class EagerGen:
+    """Result of eagerly evaluating a generator function: the yielded items and the return value."""
+
+    def __init__(self):
+        self.items = []
+        self.value = None
+
+    def __iter__(self):
+        return iter(self.items)
+
+
+def _own_nodes(fn):
+    stack = list(fn.body) if hasattr(fn, 'body') and isinstance(fn.body, list) else [fn.body]
+    while stack:
+        n = stack.pop()
+        yield n
+        for c in ast.iter_child_nodes(n):
+            if isinstance(c, (ast.FunctionDef, ast.AsyncFunctionDef, ast.ClassDef, ast.Lambda)):
+                continue
+            stack.append(c)
 
 
 class _ModuleView:
